@@ -7,7 +7,8 @@ Definition policy_gt_ignore (p : policy) : bool := match p with Ignore => false 
 (* coarse kind of a validation finding / error *)
 Inductive fkind :=
 | KMissingType | KUnknownType | KIllegal | KValue | KDup | KMissingReq | KMissingCT | KConcurrent
-| KSyntax | KLength | KDigest | KTrailer | KBlock | KVersion | KOffset.
+| KSyntax | KLength | KDigest | KTrailer | KBlock | KVersion | KOffset
+| KEOH | KMarker | KRead | KFuel | KOther.
 Definition finding := (fkind * bytes)%type.
 
 Inductive res (A : Type) :=
